@@ -18,6 +18,8 @@ func c06Rec(id int) Record {
 
 func c06ID(r Record) int { return int(r.Body().AsInt64()) }
 
+var c06Keys = []string{"k0", "k1", "k2", "k3", "k4", "k5", "k6"}
+
 // ---- C06.queue: the ring queue against a bounded FIFO that overwrites the oldest
 func HarnessC06Queue() {
 	c := 1 + vndChoice(3)
@@ -136,6 +138,7 @@ type c06Exporter struct {
 	afterStop bool
 	stopped   *bool
 	shutdowns int
+	tampered  bool // an exported record shows a change made to the caller's record after emission
 }
 
 func (e *c06Exporter) Export(_ context.Context, rs []Record) error {
@@ -148,6 +151,14 @@ func (e *c06Exporter) Export(_ context.Context, rs []Record) error {
 	ids := make([]int, len(rs))
 	for i, r := range rs {
 		ids[i] = c06ID(r)
+		r.WalkAttributes(func(kv log.KeyValue) bool {
+			for a, k := range c06Keys {
+				if kv.Key == k && kv.Value.AsInt64() != int64(a) {
+					e.tampered = true
+				}
+			}
+			return true
+		})
 	}
 	vndYield()
 	e.mu.Lock()
@@ -202,6 +213,7 @@ func c06Common(e *c06Exporter, cfg c06Cfg, nrec int) {
 	vndAssert(!e.overlap, "export-never-running-twice-at-the-same-time")
 	vndAssert(e.maxBatch <= cfg.batch, "no-export-larger-than-maximum-batch-size")
 	vndAssert(!e.afterStop, "nothing-exported-after-shutdown-returned")
+	vndAssert(!e.tampered, "exported-records-unaffected-by-later-changes-to-the-callers-record")
 	all := e.flat()
 	for id := 0; id < nrec; id++ {
 		vndAssert(c06Count(all, id) <= 1, "no-record-exported-twice")
@@ -216,8 +228,13 @@ func HarnessC06Seq() {
 	ctx := context.Background()
 	for i := 0; i < 3; i++ {
 		r := c06Rec(i)
+		// seven attributes: the last two live in the record's overflow slice
+		for a := 0; a < 7; a++ {
+			r.AddAttributes(log.Int(c06Keys[a], a))
+		}
 		b.OnEmit(ctx, &r)
-		r.SetBody(log.IntValue(100 + i)) // later change to the caller's record
+		r.SetBody(log.IntValue(100 + i)) // later changes to the caller's record
+		r.AddAttributes(log.Int(c06Keys[6], 99), log.Int(c06Keys[0], 98))
 	}
 	ferr := b.ForceFlush(ctx)
 	vndAssert(ferr == nil, "flush-returns-nil")
